@@ -15,7 +15,26 @@ import (
 func init() { register("C14", checkC14) }
 
 var outSideRe = regexp.MustCompile(`^(out|Out|outbound|startIndex)`)
-var inSideRe = regexp.MustCompile(`^(in[A-Z]|In[A-Z]|inbound|endIndex)`)
+var inSideRe = regexp.MustCompile(`^(in$|in[A-Z]|In[A-Z]|inbound|endIndex)`)
+
+// sideOfExpr: the side named by any component of a selector chain (`s.outAdj`, `s.out.adj`, `rows.in.offsets`).
+func sideOfExpr(e ast.Expr) string {
+	for {
+		switch x := ast.Unparen(e).(type) {
+		case *ast.SelectorExpr:
+			if sd := sideOfName(x.Sel.Name); sd != "" {
+				return sd
+			}
+			e = x.X
+		case *ast.Ident:
+			return sideOfName(x.Name)
+		case *ast.IndexExpr:
+			e = x.X
+		default:
+			return ""
+		}
+	}
+}
 
 // sideOfName: which adjacency side a container field / variable name denotes.
 func sideOfName(name string) string {
@@ -340,7 +359,7 @@ func checkBuilderRoles(r *Run, p *packages.Package) {
 					if !ok {
 						return true
 					}
-					side := sideOfName(sel.Sel.Name)
+					side := sideOfExpr(sel)
 					if side == "" {
 						return true
 					}
@@ -379,7 +398,7 @@ func checkBuilderRoles(r *Run, p *packages.Package) {
 						if as, ok := s.Init.(*ast.AssignStmt); ok && len(as.Rhs) == 1 {
 							if ix, ok := ast.Unparen(as.Rhs[0]).(*ast.IndexExpr); ok {
 								if sel, ok := ast.Unparen(ix.X).(*ast.SelectorExpr); ok {
-									if side := sideOfName(sel.Sel.Name); side != "" {
+									if side := sideOfExpr(sel); side != "" {
 										ast.Inspect(s, func(m ast.Node) bool {
 											if call, ok := m.(*ast.CallExpr); ok {
 												if cs, ok := call.Fun.(*ast.SelectorExpr); ok && cs.Sel.Name == "Add" && len(call.Args) == 1 {
